@@ -16,7 +16,7 @@ git -C $W checkout -q -- .
 echo "demo with patch rc=$D1 (want !=0), without rc=$D0 (want 0)"
 git -C /repo apply $O/patch.diff || { echo "PATCH DOES NOT APPLY TO /repo"; exit 3; }
 for c in $CHECKS; do
-  out=$(cd /verif && timeout 1800 ./check $c --tier quick 2>/tmp/mutout/$ID/$K/check_$c.err); rc=$?
+  out=$(cd /verif && VERIF_EVIDENCE_DIR=/tmp/mutout/evidence timeout 1800 ./check $c --tier quick 2>/tmp/mutout/$ID/$K/check_$c.err); rc=$?
   echo "check $c rc=$rc :: $(echo "$out" | grep -c VIOLATION) violation line(s) :: $(echo "$out" | grep VIOLATION | head -2 | tr '\n' ' ')"
 done
 git -C /repo checkout -- .
